@@ -368,6 +368,39 @@ for n in ["u29_get_searches_current_then_every_queued_index", "u29_get_size_is_t
     M_COLUMN.harnesses.append(H(n, "U29", kind="bounded", shape="HashColumn::%s with an 18-bit current index and two queued older indexes; get_in_index by contract" % ("get_size" if "size" in n else "get"),
                                 bound="two queued old indexes; HashColumn::get_in_index by contract (U13)"))
 
+# ---------------------------------------------------------------- U58: BTreeIterState walk over the node stack (two-level trees)
+def _arr9(l):
+    return "[%s]" % ", ".join(str(x) for x in (list(l) + [0] * 9)[:9])
+
+
+# (root separators, leaf sizes): minimal, uneven, a full leaf (ORDER = 8), an empty last leaf is not a legal tree
+BTI_SHAPES = [(1, (1, 1)), (2, (2, 1, 2)), (1, (8, 3)), (2, (1, 8, 1)), (3, (1, 1, 1, 1))]
+BTI_QUICK = {(2, (2, 1, 2)), (1, (8, 3))}
+
+
+def _gen_btree_iter():
+    out = []
+    for (nr, nl) in BTI_SHAPES:
+        tag = "r%d_%s" % (nr, "_".join(str(x) for x in nl))
+        n = sum(nl) + nr
+        out.append("iter_harness!(#[kani::unwind(12)] u58_walk_%s, u58_walk(%d, %s, %d));" % (tag, nr, _arr9(nl), 4))
+        out.append("iter_harness!(#[kani::unwind(12)] u58_seek_%s, u58_seek(%d, %s));" % (tag, nr, _arr9(nl)))
+        out.append("iter_harness!(#[kani::unwind(12)] u58_seek_exclude_%s, u58_seek_exclude(%d, %s));" % (tag, nr, _arr9(nl)))
+        out.append("iter_harness!(#[kani::unwind(12)] u58_seek_last_%s, u58_seek_last(%d, %s));" % (tag, nr, _arr9(nl)))
+    return "\n".join(out)
+
+
+M_BTITER = KModule("btree_iter", "src/btree/iter.rs", "verif_btree_iter", "btree_iter.rs", _gen_btree_iter, deps=(M_LOG, M_TABLE, M_BTMOD))
+for (_nr, _nl) in BTI_SHAPES:
+    _tag = "r%d_%s" % (_nr, "_".join(str(x) for x in _nl))
+    _t = ("quick", "thorough") if (_nr, _nl) in BTI_QUICK else ("thorough",)
+    _sh = "two-level tree: root with %d separator(s), leaves of %s separators" % (_nr, "/".join(str(x) for x in _nl))
+    _bd = "tree shapes %s (root separators, leaf sizes); 4 steps per walk; one-byte keys; node and value reads by contract" % (BTI_SHAPES,)
+    M_BTITER.harnesses.append(H("u58_walk_" + _tag, "U58", kind="bounded", tiers=_t, shape="BTreeIterState::next, 4 steps in arbitrary directions from the start/end position; " + _sh, bound=_bd))
+    M_BTITER.harnesses.append(H("u58_seek_" + _tag, "U58", kind="bounded", tiers=_t, shape="BTreeIterState::seek(Include(k)) for every present and absent k, then two steps in arbitrary directions; " + _sh, bound=_bd))
+    M_BTITER.harnesses.append(H("u58_seek_exclude_" + _tag, "U58", kind="bounded", tiers=_t, shape="BTreeIterState::seek(Exclude(k)), then one step; " + _sh, bound=_bd))
+    M_BTITER.harnesses.append(H("u58_seek_last_" + _tag, "U58", kind="bounded", tiers=_t, shape="BTreeIterState::seek_to_last, then one step; " + _sh, bound=_bd))
+
 M_OPTIONS = KModule("options", "src/options.rs", "verif_options", "options.rs")
 for n in ["u35_metadata_1_1", "u35_metadata_2_2", "u35_metadata_1_2", "u35_metadata_2_1"]:
     M_OPTIONS.harnesses.append(H(n, "U35", kind="bounded", shape="Options::load_and_validate_metadata, requested/stored column counts %s/%s, all flags arbitrary" % (n[-3], n[-1]),
@@ -375,7 +408,7 @@ for n in ["u35_metadata_1_1", "u35_metadata_2_2", "u35_metadata_1_2", "u35_metad
 # (u35_column_flag_validity exists in the contract file but pins the exact set of rejected flag combinations, which C17 does not state: not registered)
 # units whose harnesses call the real code without recorder / contract stubs: Kani's counterexample replays natively
 NATIVE_REPLAY_UNITS = {"U1", "U2", "U4", "U5", "U7", "U11"}
-KMODULES = {"index": M_INDEX, "table": M_TABLE, "log": M_LOG, "column": M_COLUMN, "ref_count": M_REFCOUNT, "btree_node": M_BTNODE, "btree_mod": M_BTMOD, "db": M_DB, "btree_tree": M_BTTREE, "options": M_OPTIONS}
+KMODULES = {"index": M_INDEX, "table": M_TABLE, "log": M_LOG, "column": M_COLUMN, "ref_count": M_REFCOUNT, "btree_node": M_BTNODE, "btree_mod": M_BTMOD, "db": M_DB, "btree_tree": M_BTTREE, "options": M_OPTIONS, "btree_iter": M_BTITER}
 
 
 def kmodule_of_unit(unit):
@@ -881,3 +914,18 @@ for _p in ("C01", "C09"):
     PROPS[_p]["claim"] = PROPS[_p]["claim"] + _U56
 PROPS["C14"]["claim"] = PROPS["C14"]["claim"] + " A write finds the existing entry of its key in whichever index table holds it (Verus, unbounded over the queued index tables: search_all_indexes), so an overwrite never leaves a second, orphaned entry behind."
 PROPS["C07"]["claim"] = PROPS["C07"]["claim"] + " The entry whose count an operation changes is found in whichever index table holds the key (Verus, unbounded over the queued index tables: search_all_indexes)."
+
+# ---------------------------------------------------------------- U59 (Verus: batch builder of an index growth; replaces the unregistered Kani attempt U20)
+UNIT_META["reindex_batch"] = {"functions": ["column::HashColumn::reindex (fragment: index branch, from the progress read to the end of the `if progress != total` block)"],
+                              "assumes": ["IndexTable::entries (page of the old table: log overlay first, else the file), recover_key_prefix (Kani: U4) and Entry::address (U1) replaced by contracts over uninterpreted functions",
+                                          "the progress counter (AtomicU64 behind a read guard) is a plain field of the wrapper's &mut parameter; `for entry in entries.iter()` is written as a while loop over the same array in the same order (listed rewrite; Verus has no `continue` in for-loops)",
+                                          "precondition: the stored progress value does not exceed the table (established by U22 / this unit's own postcondition across batches)"]}
+UNIT_META["reindex_batch_rc"] = {"functions": ["column::HashColumn::reindex (fragment: ref-count branch)"],
+                                 "assumes": ["RefCountTable::entries and the ref-count entry accessors replaced by contracts over uninterpreted functions", "same rewrites as unit reindex_batch"]}
+for _p in ("C09", "C14"):
+    PROPS[_p]["verus_units"] = list(PROPS[_p].get("verus_units", [])) + ["reindex_batch"]
+PROPS["C10"]["verus_units"] = list(PROPS["C10"].get("verus_units", [])) + ["reindex_batch_rc"]
+PROPS["C09"]["claim"] = PROPS["C09"]["claim"] + " Growth batches (Verus, unbounded: any progress value, any chunk contents): a batch built by HashColumn::reindex holds exactly the live entries of the chunks the progress counter moves past, each under the key prefix recovered from its own chunk and with its own address; the counter only moves forward and never beyond the old table; the old table is reported droppable only when the counter has reached its end."
+PROPS["C09"]["does_not_cover"] = [x for x in PROPS["C09"]["does_not_cover"] if "reindex` batch builder" not in x and "HashColumn::reindex batch builder" not in x]
+PROPS["C14"]["claim"] = PROPS["C14"]["claim"] + " No index entry is dropped by a growth batch (Verus, unbounded: HashColumn::reindex, see C09)."
+PROPS["C10"]["claim"] = PROPS["C10"]["claim"] + " Stored node counts survive a growth of the ref-count table (Verus, unbounded): the ref-count branch of HashColumn::reindex plans exactly the live (address, count) pairs of the chunks its progress counter moves past and reports the old table droppable only at the end."
